@@ -31,9 +31,9 @@ def run(prop, tier, vseed):
                 phases = [{"alphabet": "c03", "depth": 3, "seeds": "all"}, {"alphabet": "c03", "depth": 4, "seeds": "small"}]
         else:
             if tier == "quick":
-                phases = [{"alphabet": "c04", "depth": 2, "seeds": "nobig"}, {"alphabet": "c04", "depth": 3, "seeds": "small"}]
+                phases = [{"alphabet": "c04", "depth": 2, "seeds": "nobig"}, {"alphabet": "c04", "depth": 3, "seeds": "small"}, {"alphabet": "c04m", "depth": 5, "seeds": "templates"}]
             else:
-                phases = [{"alphabet": "c04", "depth": 3, "seeds": "all"}, {"alphabet": "c04", "depth": 4, "seeds": "small"}]
+                phases = [{"alphabet": "c04", "depth": 3, "seeds": "all"}, {"alphabet": "c04", "depth": 4, "seeds": "small"}, {"alphabet": "c04m", "depth": 6, "seeds": "small"}]
         return run_plan(prop, tier, vseed, [(m, phases)], RULES[prop], ASSUME, t0=t0)
     finally:
         shutil.rmtree(base, ignore_errors=True)
